@@ -37,5 +37,5 @@ finally:
     subprocess.run(['git', '-C', '/repo', 'worktree', 'remove', '--force', wt])
     # regenerate anything the translators wrote from the mutated tree
     subprocess.run([os.path.join(ROOT, 'check'), 'gen'], cwd=ROOT)
-    for t in ('argchain', 'census', 'xpandscan'):
+    for t in ('argchain', 'census', 'xpandscan', 'leakscan'):
         subprocess.run([sys.executable, os.path.join(ROOT, 'tools', t + '.py'), '/repo', os.path.join(ROOT, 'lean', 'Slu', 'Gen')], capture_output=True)
